@@ -29,7 +29,8 @@ class WorldC08(World):
     PROBES = ('species-in-three-reactions', 'condition-dict-reused', 'block-for-one-species', 'block-for-absent-species',
               'fractional-stoichiometry', 'two-transition-state-species', 'species-on-both-sides', 'edit-then-evaluate',
               'rev-and-act', 'Keq-product', 'chemkin-unclamped', 'surface-unclamped', 'mixed-model-classes', 'q-ratio',
-              'from-string', 'bep-transition-state', 'bep-shared-by-two-reactions')
+              'from-string', 'bep-transition-state', 'bep-shared-by-two-reactions', 'flags-as-numpy-bool', 'flags-as-int',
+              'Keq-of-activation', 'arrhenius-Ea-explicit-molecularity')
     REAL = ('pmutt.reaction.Reaction / ChemkinReaction / pmutt.omkm.reaction.SurfaceReaction getters',
             'pmutt._get_specie_kwargs / _force_pass_arguments', 'StatMech, Nasa, Shomate species')
     SIMULATED = ('1-3 clients evaluating reactions over shared species and shared, re-used condition dictionaries',)
@@ -145,7 +146,8 @@ class WorldC08(World):
         if self.rxm[r].get('bep') is not None and rng.random() < 0.8:
             q = rng.choice(['HoRT', 'SoR', 'GoRT'])
         return {'c': c, 'op': 'eval', 'args': {'rxn': r, 'cond': rng.choice(sorted(self.cond)), 'q': q,
-                                               'rev': rng.random() < 0.5}}
+                                               'rev': rng.random() < 0.5,
+                                               'flags': rng.choice(['bool', 'bool', 'bool', 'numpy', 'int'])}}
 
     # ------------------------------------------------------------------ helpers
     def _mk_species(self, a):
@@ -332,7 +334,7 @@ class WorldC08(World):
         elif name == 'eval':
             if a['rxn'] not in self.rxn or a['cond'] not in self.cond:
                 raise Skip()
-            out = self._eval(a['rxn'], a['cond'], a['q'], a['rev'])
+            out = self._eval(a['rxn'], a['cond'], a['q'], a['rev'], a.get('flags', 'bool'))
         else:
             raise Skip()
         # cheap global invariant: every reaction's enthalpy change at a fixed condition equals the independent sum
@@ -350,8 +352,17 @@ class WorldC08(World):
                     r, q, got, fin - ini))
         return out
 
-    def _eval(self, r, cid, q, rev):
+    def _eval(self, r, cid, q, rev, flags='bool'):
         ctx = self.ctx
+        # the truth values a caller passes: Python bools, numpy bools (rev = dG > 0) or 0/1
+        if flags == 'numpy':
+            F = lambda b: self.np.bool_(b)
+            ctx.probe('flags-as-numpy-bool')
+        elif flags == 'int':
+            F = lambda b: int(b)
+            ctx.probe('flags-as-int')
+        else:
+            F = bool
         rxn, m = self.rxn[r], self.rxm[r]
         cond = self.cond[cid]
         snap = copy.deepcopy(cond)
@@ -406,11 +417,11 @@ class WorldC08(World):
         ini, fin = ('products', 'reactants') if rev else ('reactants', 'products')
         scale = val[ini][1] + val[fin][1]
         want = val[fin][0] / val[ini][0] if q == 'q' else val[fin][0] - val[ini][0]
-        got = call(getattr(rxn, 'get_delta_' + q), 'get_delta_%s(rev=%s)' % (q, rev), rev=rev)
+        got = call(getattr(rxn, 'get_delta_' + q), 'get_delta_%s(rev=%s)' % (q, rev), rev=F(rev))
         if not self._close(got, want, scale, q):
             raise Violation('hess', 'reaction %d (%s): get_delta_%s(rev=%s) = %r under %r; final - initial = %r' % (
                 r, m['cls'], q, rev, got, cond, want))
-        back = call(getattr(rxn, 'get_delta_' + q), 'get_delta_%s(rev=%s)' % (q, not rev), rev=not rev)
+        back = call(getattr(rxn, 'get_delta_' + q), 'get_delta_%s(rev=%s)' % (q, not rev), rev=F(not rev))
         if q == 'q':
             ctx.probe('q-ratio')
             if math.isfinite(got) and math.isfinite(back) and 1e-250 < abs(got) < 1e250 and abs(got * back - 1.0) > 1e-9:
@@ -424,13 +435,13 @@ class WorldC08(World):
             for rv in (False, True):
                 i0 = 'products' if rv else 'reactants'
                 w = ts / val[i0][0] if q == 'q' else ts - val[i0][0]
-                g = call(getattr(rxn, 'get_delta_' + q), 'get_delta_%s(rev=%s, act=True)' % (q, rv), rev=rv, act=True)
+                g = call(getattr(rxn, 'get_delta_' + q), 'get_delta_%s(rev=%s, act=True)' % (q, rv), rev=F(rv), act=F(True))
                 if not self._close(g, w, tscale + val[i0][1], q):
                     raise Violation('activation', 'reaction %d: get_delta_%s(rev=%s, act=True) = %r; transition state - '
                                     'initial state = %r' % (r, q, rv, g, w))
                 acts[rv] = g
                 if q not in ('EoRT', 'q'):
-                    g2 = call(getattr(rxn, 'get_%s_act' % q), 'get_%s_act(rev=%s)' % (q, rv), rev=rv)
+                    g2 = call(getattr(rxn, 'get_%s_act' % q), 'get_%s_act(rev=%s)' % (q, rv), rev=F(rv))
                     if not self._close(g2, w, tscale + val[i0][1], q):
                         raise Violation('activation', 'reaction %d: get_%s_act(rev=%s) = %r; transition state - initial '
                                         'state = %r' % (r, q, rv, g2, w))
@@ -446,13 +457,42 @@ class WorldC08(World):
                     r, q, acts[False] - acts[True], fwd_delta))
         if q == 'GoRT' and m['cls'] == 'Reaction' and abs(val['products'][0] - val['reactants'][0]) < 600.0:
             ctx.probe('Keq-product')
-            kf = call(rxn.get_Keq, 'get_Keq', rev=False)
-            kr = call(rxn.get_Keq, 'get_Keq(rev=True)', rev=True)
+            kf = call(rxn.get_Keq, 'get_Keq', rev=F(False))
+            kr = call(rxn.get_Keq, 'get_Keq(rev=True)', rev=F(True))
             dG = val['products'][0] - val['reactants'][0]
             if abs(math.log(kf) + dG) > 1e-9 * max(1.0, scale):
                 raise Violation('Keq', 'reaction %d: ln Keq = %r, -delta G/RT = %r' % (r, math.log(kf), -dG))
             if abs(math.log(kf) + math.log(kr)) > 1e-9 * max(1.0, scale):
                 raise Violation('Keq', 'reaction %d: Keq(forward) x Keq(reverse) = %r' % (r, kf * kr))
+        if 'transition state' in val and q == 'GoRT' and m['cls'] == 'Reaction':
+            # the equilibrium constant of activation, in both directions
+            ts = val['transition state'][0]
+            for rv in (False, True):
+                dGa = ts - val['products' if rv else 'reactants'][0]
+                if abs(dGa) < 600.0:
+                    ka = call(rxn.get_Keq, 'get_Keq(rev=%s, act=True)' % rv, rev=F(rv), act=F(True))
+                    if abs(math.log(ka) + dGa) > 1e-9 * max(1.0, scale + val['transition state'][1]):
+                        raise Violation('Keq', 'reaction %d: ln Keq(rev=%s, act=True) = %r, -(G_ts - G_initial)/RT = %r' % (
+                            r, rv, math.log(ka), -dGa))
+                    ctx.probe('Keq-of-activation')
+        if 'transition state' in val and q == 'HoRT' and m['cls'] == 'Reaction' and m.get('bep') is None:
+            # Arrhenius activation energy with the molecularity change stated by the caller (0 for condensed-phase and
+            # unimolecular steps): Ea/RT = dH_act/RT + (1 - del_m); with the same del_m both ways, forward - reverse = dH
+            ts = val['transition state'][0]
+            for dm in (0, 1, -1):
+                ea = {}
+                for rv in (False, True):
+                    w = ts - val['products' if rv else 'reactants'][0] + (1 - dm)
+                    g = call(rxn.get_EoRT_act, 'get_EoRT_act(rev=%s, del_m=%d)' % (rv, dm), rev=F(rv), del_m=dm)
+                    if not self._close(g, w, val['transition state'][1] + scale, q):
+                        raise Violation('activation', 'reaction %d: get_EoRT_act(rev=%s, del_m=%d) = %r; dH_act/RT + (1 - del_m) = %r' % (
+                            r, rv, dm, g, w))
+                    ea[rv] = g
+                dH = val['products'][0] - val['reactants'][0]
+                if abs((ea[False] - ea[True]) - dH) > 1e-10 * (scale + 2 * val['transition state'][1]):
+                    raise Violation('detailed-balance', 'reaction %d: Ea forward - reverse (del_m=%d) = %r, reaction enthalpy %r' % (
+                        r, dm, ea[False] - ea[True], dH))
+            ctx.probe('arrhenius-Ea-explicit-molecularity')
         return round(worst, 9)
 
     def abstract_state(self):
